@@ -16,11 +16,11 @@ SLICES = ["arith", "str", "lazy", "func", "obj", "comp"]
 QUICK_SAMPLE = {"arith": 1500, "str": 800, "lazy": 400, "func": 800, "obj": 1500, "comp": 800}
 
 
-def sem_cfg(slice_, sample, fuel=40, module_consts=""):
+def sem_cfg(slice_, sample, fuel=40, module_consts="", rmmode=1):
     d = vlib.workdir("tlc")
-    path = os.path.join(d, f"gen_sem_{slice_}_{sample}.cfg")
+    path = os.path.join(d, f"gen_sem_{slice_}_{sample}_{rmmode}.cfg")
     with open(path, "w") as f:
-        f.write(f'CONSTANTS Slice = "{slice_}" Sample = {sample} Fuel = {fuel}\n{module_consts}'
+        f.write(f'CONSTANTS Slice = "{slice_}" Sample = {sample} Fuel = {fuel} RmMode = {rmmode}\n{module_consts}'
                 "INIT Init\nNEXT Next\nINVARIANT Emit\nCHECK_DEADLOCK FALSE\n")
     return path
 
